@@ -95,7 +95,7 @@ impl Property for C02 {
             &tc,
             &built.sigs,
             &spec,
-            &RunOpts { max_next: prefix, extra_after_end: extra, ..Default::default() },
+            &RunOpts { max_next: prefix, extra_after_end: extra, fuel: fuel_for(t.facts.steps), ..Default::default() },
         );
         if let Some(c) = &real.ctor {
             match c {
